@@ -932,3 +932,94 @@ def check_partial_scope(ctx: Ctx, r: Rule, roots: list, contracts: Optional[dict
             if how is None:
                 fail(r, ctx, g, ob.node, f"{ob.kind} obligation not discharged: `{show(ob.term)[:160]}` in {q} can raise an internal error (not the "
                                          f"RegexNotMatchError the dispatcher expects), so a line would abort the parse instead of being claimed or skipped")
+
+
+# --------------------------------------------------------------------------------------------------
+def check_signatures(ctx: Ctx, rule: Rule, g: Any, s: Summary) -> int:
+    """Every call of a package function or constructor in g binds: no missing required parameter, no unexpected keyword, not too
+    many positional arguments (a TypeError otherwise -- typically in a rarely executed branch the tests do not reach).  Call records
+    are in canonical keyword form when the evaluator could bind them; a record left positional for a callee without *args/**kwargs
+    did not bind."""
+    n_ok = 0
+    prog = ctx.prog
+
+    def required_of(fn_node: ast.AST, skip_first: bool) -> tuple:
+        a = fn_node.args
+        pos = [p.arg for p in a.posonlyargs + a.args]
+        req = set(pos[: len(pos) - len(a.defaults)])
+        for p, d in zip(a.kwonlyargs, a.kw_defaults):
+            if d is None:
+                req.add(p.arg)
+        allp = set(pos) | {p.arg for p in a.kwonlyargs}
+        if skip_first and pos:
+            req.discard(pos[0])
+            allp.discard(pos[0])
+        return req, allp, a.vararg is not None, a.kwarg is not None
+
+    for c in s.calls:
+        if any(isinstance(x, tuple) and x and x[0] == "star" for x in c.args) or any(k == "**" for k, _ in c.kwargs):
+            continue
+        target = None
+        skip_first = False
+        if c.fn[0] in ("func", "closure", "boundcls"):
+            f = prog.functions.get(c.fn[1])
+            if f is None or isinstance(f.node, ast.Lambda):
+                continue
+            target = (f.qual, f.node)
+        elif c.fn[0] in ("class", "clsparam"):
+            k = prog.classes.get(c.fn[1])
+            if k is None:
+                continue
+            if k.is_enum():
+                if len(c.args) + len(c.kwargs) != 1:
+                    fail(rule, ctx, g, c.node, f"{k.qual}(...) is called with {len(c.args) + len(c.kwargs)} argument(s): an enum look-up takes "
+                                               f"exactly one (TypeError)")
+                else:
+                    n_ok += 1
+                continue
+            init = k.find_method("__init__")
+            if init is not None:
+                target = (k.qual, init.node)
+                skip_first = True
+            elif k.is_dataclass():
+                fields = k.dc_fields()
+                names = {f_.name for f_ in fields}
+                req = {f_.name for f_ in fields if f_.default is None} if all(hasattr(f_, "default") for f_ in fields) else None
+                if c.args:
+                    fail(rule, ctx, g, c.node, f"{k.qual}(...) does not bind: positional arguments to a keyword-only dataclass, or more "
+                                               f"arguments than fields (TypeError)")
+                    continue
+                given = {kk for kk, _ in c.kwargs}
+                if given - names:
+                    fail(rule, ctx, g, c.node, f"{k.qual}(...) is given {sorted(given - names)}, which is not a field (TypeError)")
+                    continue
+                if req is not None and req - given:
+                    fail(rule, ctx, g, c.node, f"{k.qual}(...) is missing the required field(s) {sorted(req - given)} (TypeError)")
+                    continue
+                n_ok += 1
+                continue
+            else:
+                continue
+        if target is None:
+            continue
+        qual, node = target
+        req, allp, var, kw = required_of(node, skip_first)
+        if c.args:
+            if not var and not kw:
+                fail(rule, ctx, g, c.node, f"the call of {qual} does not bind to its signature (too many positional arguments, an unknown "
+                                           f"keyword, or a parameter given twice): TypeError when executed")
+            continue
+        given = {kk for kk, _ in c.kwargs}
+        if c.fn[0] == "boundcls" or (skip_first is False and node.args.args and node.args.args[0].arg in ("self", "cls") and
+                                     node.args.args[0].arg not in given):
+            first = node.args.args[0].arg if node.args.args else None
+            if first in ("self", "cls"):
+                req.discard(first)
+        if req - given:
+            fail(rule, ctx, g, c.node, f"the call of {qual} omits the required parameter(s) {sorted(req - given)}: TypeError when executed")
+            continue
+        if given - allp - ({node.args.args[0].arg} if node.args.args else set()) and not kw:
+            fail(rule, ctx, g, c.node, f"the call of {qual} passes {sorted(given - allp)}, which is not a parameter: TypeError when executed")
+            continue
+        n_ok += 1
+    return n_ok
